@@ -58,10 +58,14 @@ impl Ctx {
         }
         let now = Time::now();
         let h = |n: i64| chrono::TimeDelta::try_hours(n).unwrap();
+        // windows that have only just ended resp. only just begun (two to three seconds ago: X.509 times have whole seconds) - for
+        // the entry points that read the clock themselves a window is as good as its edges, and "over" / "begun" stay true as the
+        // clock moves on, so nothing here depends on how fast this runs
+        let sec = |n: i64| chrono::TimeDelta::try_seconds(n).unwrap();
         let validity = match ee {
-            "expired" => Validity::new(now - h(48), now - h(24)),
+            "expired" => Validity::new(now - h(48), now - sec(2)),
             "notyet" => Validity::new(now + h(24), now + h(48)),
-            _ => Validity::new(now - h(24), now + h(24)),
+            _ => Validity::new(now - sec(2), now + h(24)),
         };
         let (v4, v6, asn) = match (kind, cover) {
             // the family the facet lives in holds atom a1; with "+" the other family holds a1 as well, otherwise nothing
